@@ -770,3 +770,61 @@ Proof.
   - exact C6.
 Qed.
 End Block.
+
+(* the variant of the code in which the semantic id folds the node semantic id of sweep nodes in *)
+Section DiscSweep.
+Variable U5 H : string -> string.
+Hypothesis Hsf : pipeline_sem_fields = ["name"; "node_uuid"; "payload_from"].
+Hypothesis Hs : sem_includes_sweep = true.
+
+Lemma sem_entry_nodesem u u' n n' : canon (sem_entry H u n) = canon (sem_entry H u' n') ->
+  node_sem_id H n = node_sem_id H n'.
+Proof.
+  intros E. unfold sem_entry in E. rewrite Hsf, Hs in E. cbn [map String.eqb Ascii.eqb Bool.eqb] in E.
+  unfold node_sem_id in *.
+  destruct (n_sweep n) as [s|] eqn:En, (n_sweep n') as [s'|] eqn:En'; auto.
+  - destruct (obj_member _ _ "node_semantic_id" _ E ltac:(cbn [app In]; auto 6)) as [v [I C]].
+    cbn [app In] in I. destruct I as [I|[I|[I|[I|[]]]]]; try discriminate I.
+    injection I as <-. simpl in C. injection C; auto.
+  - destruct (obj_member _ _ "node_semantic_id" _ E ltac:(cbn [app In]; auto 6)) as [v [I C]].
+    cbn [app In] in I. destruct I as [I|[I|[I|[]]]]; discriminate I.
+  - symmetry in E.
+    destruct (obj_member _ _ "node_semantic_id" _ E ltac:(cbn [app In]; auto 6)) as [v [I C]].
+    cbn [app In] in I. destruct I as [I|[I|[I|[]]]]; discriminate I.
+Qed.
+
+Lemma sem_entries_nodesems : forall c1 c2 k,
+  map canon (sem_entries U5 H k c1) = map canon (sem_entries U5 H k c2) -> node_sems H c1 = node_sems H c2.
+Proof.
+  induction c1 as [|n c1 IH]; intros [|m c2] k E; cbn [sem_entries map node_sems] in *; try discriminate; auto.
+  assert (E1 := f_equal (@hd json JNull) E). assert (E2 := f_equal (@tl json) E).
+  cbn [hd tl] in E1, E2. f_equal.
+  - eapply sem_entry_nodesem. exact E1.
+  - apply (IH c2 (S k)). exact E2.
+Qed.
+End DiscSweep.
+
+Section DiscFull.
+Variable U5 H : string -> string.
+Hypothesis U5_ok : forall s, str_ok (U5 s) = true.
+Hypothesis H_ok : forall s, str_ok (H s) = true.
+Hypothesis Hsf : pipeline_sem_fields = ["name"; "node_uuid"; "payload_from"].
+Hypothesis Hs : sem_includes_sweep = true.
+
+Theorem semantic_id_full c1 c2 : semantic_id U5 H c1 = semantic_id U5 H c2 ->
+  (uuids U5 c1 = uuids U5 c2 /\ node_sems H c1 = node_sems H c2) \/ Collision H.
+Proof.
+  unfold semantic_id. intros E. apply append_inj_l in E.
+  destruct (hash_eq H _ _ E) as [Ep|C]; auto. left.
+  unfold semantic_pre in Ep. apply prefixed_dumps_inj in Ep.
+  - unfold semantic_struct in Ep. rewrite !canon_obj in Ep. cbn [map cm ksort fold_right kinsert canon] in Ep.
+    assert (Ee : map canon (sem_entries U5 H 0 c1) = map canon (sem_entries U5 H 0 c2)) by congruence.
+    split.
+    + apply (sem_entries_uuids U5 H Hsf c1 c2 0 Ee).
+    + apply (sem_entries_nodesems U5 H Hsf Hs c1 c2 0 Ee).
+  - unfold semantic_struct. rewrite jok_obj. cbn [map fst nodupb mem_str negb andb forallb mok str_ok str_forall char_ok jok].
+    rewrite (sem_entries_jok U5 H U5_ok H_ok Hsf). reflexivity.
+  - unfold semantic_struct. rewrite jok_obj. cbn [map fst nodupb mem_str negb andb forallb mok str_ok str_forall char_ok jok].
+    rewrite (sem_entries_jok U5 H U5_ok H_ok Hsf). reflexivity.
+Qed.
+End DiscFull.
